@@ -179,7 +179,7 @@ func (w *World) literalStores(fn *ssa.Function, typ *types.Named) map[string]ssa
 		if !types.Identical(pt, typ) {
 			return
 		}
-		if _, isAlloc := fa.X.(*ssa.Alloc); !isAlloc {
+		if !freshBase(fa) {
 			return
 		}
 		out[pt.Underlying().(*types.Struct).Field(fa.Field).Name()] = st.Val
